@@ -70,6 +70,15 @@ func StringToAmount(s string) (massutil.Amount, error) {
 	if len(s1) > 2 {
 		return massutil.ZeroAmount(), fmt.Errorf("illegal number format")
 	}
+	// only plain unsigned decimal digits are allowed in either part; strconv.ParseInt
+	// below would otherwise accept a sign ("+5", "-0.5", "1.+5" read as 1.05)
+	for _, part := range s1 {
+		for i := 0; i < len(part); i++ {
+			if part[i] < '0' || part[i] > '9' {
+				return massutil.ZeroAmount(), fmt.Errorf("illegal number format")
+			}
+		}
+	}
 	var sInt, sFrac string
 	// preproccess integral part
 	sInt = strings.TrimLeft(s1[0], "0")
